@@ -1,7 +1,7 @@
 (* Single entry point val -> val for every modelled function; used by the extracted
    runner and by the generated in-Coq case files. *)
 From Coq Require Import ZArith List Bool.
-From Gabi Require Import Val ModArith Bytes Der Sha256 HashTool GoSem ParamsDef ZkProof Keys RangeProof NonRev Core CL Prover RangeSound Revocation NonRevProver Keyshare.
+From Gabi Require Import Val ModArith Bytes Der Sha256 HashTool GoSem ParamsDef ZkProof Keys RangeProof NonRev Core CL Prover RangeSound Revocation NonRevProver Keyshare MathUtil.
 Import ListNotations.
 Open Scope Z_scope.
 
@@ -366,6 +366,25 @@ Definition d_ks_commitments (v : val) : val := ret (
   | _ => None
   end).
 
+Definition d_mod_inverse (v : val) : val := ret (
+  match v with VL [a; n] => do a <- as_Z a; do n <- as_Z n; Some (of_oZ (mod_inverse a n)) | _ => None end).
+Definition d_modpow (v : val) : val := ret (
+  match v with VL [x; y; m] => do x <- as_Z x; do y <- as_Z y; do m <- as_Z m; Some (of_oZ (go_modpow x y m)) | _ => None end).
+Definition d_legendre (v : val) : val := ret (
+  match v with VL [a; p] => do a <- as_Z a; do p <- as_Z p; Some (VZ (legendre a p)) | _ => None end).
+Definition d_crt (v : val) : val := ret (
+  match v with VL [a; pa; b; pb] => do a <- as_Z a; do pa <- as_Z pa; do b <- as_Z b; do pb <- as_Z pb;
+                                    Some (of_outcome VZ (crt a pa b pb)) | _ => None end).
+Definition d_fastmod (v : val) : val := ret (
+  match v with VL [p; x] => do p <- as_Z p; do x <- as_Z x; Some (of_oZ (fm_mod (fm_set p) x)) | _ => None end).
+Definition d_rp_candidate (v : val) : val := ret (
+  match v with VL [st; ln; bs] => do st <- as_Z st; do ln <- as_Z ln; do bs <- as_LZ bs; Some (VZ (rp_candidate st ln bs)) | _ => None end).
+Definition d_sieve (v : val) : val := ret (
+  match v with VL [sp; pr; th; p] => do sp <- as_LZ sp; do pr <- as_Z pr; do th <- as_Z th; do p <- as_Z p;
+                                     Some (of_bool (sieve_rejects sp pr th p)) | _ => None end).
+Definition d_prepare_bytes (v : val) : val := ret (
+  match v with VL [bs; b] => do bs <- as_LZ bs; do b <- as_Z b; Some (of_LZ (prepare_bytes bs b)) | _ => None end).
+
 Definition dispatch (fn : Z) (v : val) : val :=
   match fn with
   | 1501 => d_hash_commit v
@@ -399,6 +418,14 @@ Definition dispatch (fn : Z) (v : val) : val :=
   | 1103 => d_nr_build v
   | 1401 => d_keyshare_response v
   | 1402 => d_ks_commitments v
+  | 1901 => d_mod_inverse v
+  | 1902 => d_modpow v
+  | 1903 => d_legendre v
+  | 1904 => d_crt v
+  | 1905 => d_fastmod v
+  | 1906 => d_rp_candidate v
+  | 1907 => d_sieve v
+  | 1908 => d_prepare_bytes v
   | 1201 => d_proves_statement v
   | 1202 => d_proven_statement v
   | 1204 => d_range_verify v
